@@ -221,6 +221,8 @@ def gen_person(rng) -> dict:
 
 def gen_block_name(rng) -> str:
     r = rng.random()
+    if r < 0.04:
+        return ""  # the default name of cif.CIF() and a legal argument of cif.Block
     if r < 0.7:
         return "".join(rng.choice(PLAIN + "_#$;'\"[]") for _ in range(rng.randrange(1, 20)))
     if r < 0.85:
@@ -681,7 +683,10 @@ class CifEngine(Engine):
                 ctx.probe("refused_operation_then_continued")
                 continue
             elif o == "cif":
-                res, exc = core.capture(lambda: cif.CIF(op["name"], comment=op["comment"]))
+                if op["name"] == "":
+                    res, exc = core.capture(lambda: cif.CIF(comment=op["comment"]))  # default name
+                else:
+                    res, exc = core.capture(lambda: cif.CIF(op["name"], comment=op["comment"]))
                 lib[op["id"]] = res
                 mod[op["id"]] = MCif(op["name"], op["comment"])
             elif o == "copy":
@@ -1052,12 +1057,18 @@ class CifEngine(Engine):
         fb = self._found_by()
 
         unrep = "semicolon_line_in_text" in self._hz
+        noname = any(b["name"] == "" for b in exp["blocks"])
+        if noname:
+            ctx.probe("hazard_empty_block_name")
+            hz = sorted(set(hz) | {"empty_block_name"})
 
         def bad(kind, msg, **sig):
-            # runs that contain a string with no CIF 1.1 representation form their own group so
-            # that the known finding about them can never absorb another violation
+            # runs that contain a string with no CIF 1.1 representation (or a block without a
+            # name) form their own group so that the known finding about them can never absorb
+            # another violation
             ctx.violate(kind.split(":")[0], f"[{where}] {msg}", kind=kind, hazards=hz, found_by=fb,
-                        group=kind + ("|unrepresentable-string-present" if unrep else ""), **sig)
+                        group=kind + ("|unrepresentable-string-present" if unrep else "")
+                        + ("|empty-block-name-present" if noname else ""), **sig)
 
         non_ascii = [c for c in text if ord(c) > 127]
         if non_ascii:
@@ -1151,6 +1162,12 @@ class CifEngine(Engine):
     def counterfactual(self, name, scn):
         if name == "no_semicolon_lines":
             return _neutralise_semicolon_lines(scn)
+        if name == "no_empty_block_names":
+            c = copy.deepcopy(scn)
+            for op in c["ops"]:
+                if op.get("name") == "" and op["op"] in ("block", "cif", "set_name", "block_set_name"):
+                    op["name"] = "x"
+            return c
         raise core.HarnessError(f"unknown counterfactual {name}")
 
     def describe(self, scn):
